@@ -8,6 +8,7 @@ HARNESSES = {
     'holders_seq': {'san': 'asan'},
     'unique_seq': {'san': 'asan'},
     'bits_seq': {'san': 'asan'},
+    'printf_diff': {'san': 'asan', 'cxxflags': ['-fno-sanitize=nonnull-attribute']},
     'rbtree_seq': {'san': 'asan'},
     'interval_seq': {'san': 'asan'},
     'pheap_seq': {'san': 'asan'},
@@ -294,6 +295,29 @@ PROPS['C08'] = {
     'level_note': 'the hook fields child/backlink/sibling are public and read by the oracle',
     'technique': 'model-based property testing (exhaustive small scopes + rapidcheck histories + libFuzzer) against a reference multiset',
     'assumptions': ['elements are in at most one heap'],
+}
+
+PROPS['C19'] = {
+    'runs': [{'harness': 'printf_diff',
+              'quick': {'rc': rc(20000, sizes=[30, 60, 120])},
+              'thorough': {'rc': rc(300000, sizes=[30, 60, 120, 200]), 'fuzz': {'seconds': 150}}}],
+    'rule': 'printf: 1-3 directives from the grammar %[n$][flags][width|*][.prec|.*][hh|h|l|ll|z|t|j]{d,i,u,o,x,X}, %[n$][-][width|*][.prec|.*]{c,s}, %p, literal text '
+            'incl. %%; flags any subset ISO C defines for the conversion; widths 1..70 literal or * in -70..70; precisions none/./0..70/.* in -6..70; values from the '
+            'boundary set of every length modifier (0, +-1, min, max and neighbours) and random; strings with lengths around the precision; all-positional formats with a '
+            'permutation of 1..N. The arguments are a hand-made SysV va_list over an exact-size heap array; oracle: byte equality with glibc vsnprintf on the same list '
+            '(%p compared with 0x%lx). fmt(): format strings from the grammar ([0-9]+)?(:0?[0-9]*[bcdioXx]?)? plus malformed specs, out-of-range positions, {{, unclosed '
+            'specs over a fixed 7-tuple of argument types with generated values; oracle: an independent interpreter of the grammar. stack_buffer_logger<Sink,Limit> for '
+            'Limit in {2,3,8,128} with messages of 1-4 pieces and total length around k*(Limit-1)+-2; oracle: concatenated chunks == message, every chunk shorter than '
+            'Limit, begin once, finalize(true) once. Non-trivial: a directive with >= 2 flags, width together with precision, or a boundary value; a fmt spec with width and '
+            'conversion, a malformed/out-of-range spec; a logger message that needs >= 2 chunks; distinct = hash of the decoded case.',
+    'required_tags': ['printf', 'fmt', 'positional', 'star-width', 'star-width-negative', 'star-precision', 'star-precision-negative', 'precision0-value0', 'fmt-malformed', 'fmt-position-out-of-range',
+                      'fmt-unclosed', 'fmt-zero-fill', 'logger-2', 'logger-3', 'logger-8', 'logger-128', 'logger-exact-multiple'] + ['conv-' + x for x in 'diuoxXcsp'] + ['len-' + x for x in ('hh', 'h', 'l', 'll', 'z', 't', 'j')]
+                     + ['flags-' + x for x in ('+-', '-0', '#-', '#0', '+0', '_-', '_0', '_+', "'-", "'0")],
+    'min_cases': {'quick': 100000, 'thorough': 1500000},
+    'level_text': 'differential testing against glibc vsnprintf over generated directives and boundary values, a grammar interpreter for fmt(), chunk reassembly for the logger; held on everything generated',
+    'level_note': 'trusts glibc 2.36 as the ISO C reference in the "C" locale (x86-64 SysV va_list layout); flag/conversion combinations that ISO C leaves undefined are not generated',
+    'technique': 'differential property testing against glibc printf and an independent fmt-grammar interpreter (rapidcheck tapes + libFuzzer on the directive decoder)',
+    'assumptions': ['x86-64 SysV ABI', 'C locale', 'no %lc/%ls, no floating point conversions (outside the property)'],
 }
 
 NOT_APPLICABLE = {}
